@@ -7,9 +7,14 @@ Model of the `#[derive(Serialize, Deserialize)]` encodings of the three containe
 `DryocBox { ephemeral_pk: Option<_>, tag, data }`, /repo/src/sign.rs
 `SignedMessage { signature, message }`) at the level of serde's data model: a derived
 struct encoding is the sequence of the encodings of its fields IN DECLARATION ORDER, each
-produced / consumed by the field type's own `Serialize` / `Deserialize` (fixed-length
-arrays: `deFixed n`; resizable containers: `deHeap`); an `Option` field is `none` or
-`some` of the inner encoding.  Deserialisation visits the fields in order and stops at the
+produced / consumed by the field type's own `Serialize` / `Deserialize`; an `Option` field is
+`none` or `some` of the inner encoding.  THIS file hard-wires dryoc's own visitors of
+/repo/src/bytes_serde.rs: `deFixed n` — which exists for `StackByteArray<N>` and
+`Locked<HeapByteArray<N>>` ONLY — and `deHeap` (`HeapBytes`, `LockedBytes`); it is the
+instantiation of the default aliases (`Mac = StackByteArray<16>`, `Signature = StackByteArray<64>`,
+…) and of the `protected` ones.  `Vec<u8>` and plain `[u8; N]` fields use serde's own impls:
+`Model/EncodingVec.lean` (`Kind.vec`, `Kind.array`).  Unlocked `HeapByteArray<N>` and
+`LockedRO<HeapBytes>` have `Serialize` only: a struct holding one can be written, not read.  Deserialisation visits the fields in order and stops at the
 first failure.  serde_json / bincode (field names, framing) are trusted to hand the field
 encodings over unchanged.
 -/
